@@ -109,6 +109,10 @@ def _has_unordered(t):
     return t[0] in ("set", "mapping") or any(_has_unordered(s) for s in t[1])
 
 
+def _has_double(t):
+    return t[0] == "double" or any(_has_double(s) for s in t[1])
+
+
 def _f32_nan(t):
     return t[0] == "float" or any(_f32_nan(s) for s in t[1])
 
@@ -219,6 +223,7 @@ class AuxNew(AuxBase):
 
     def model(self, w, op, out):
         w.m.nodes[op["c"]].a["aux"][op["name"]] = table(op["type"], op["cv"])
+        w.aux_refs.pop((op["c"], op["name"]), None)
         return Exp("ok", value=None, owner=())
 
 
@@ -256,6 +261,7 @@ class AuxRead(AuxBase):
         if out.kind != "ok":
             return Exp("ok", value="read", owner=("C07", "C01", "C14"))
         check_read(w, op["c"], op["name"], tbl, out.raw, ("C07", "C01"), ("C07", "C09"), decoded_now=lazy)
+        w.aux_refs[(op["c"], op["name"])] = out.raw
         if tbl["state"] == "untouched":
             tbl["state"] = "read"
         elif tbl["state"] == "retyped":
@@ -305,7 +311,52 @@ class AuxMutate(AuxBase):
             w.violate(("C07", "C14"), "aux:mutate_shape", str(e))
         tbl["state"] = "mutated"
         tbl.pop("decoded_lazily", None)
+        w.aux_refs[(op["c"], op["name"])] = out.raw
         return Exp("ok", value="mutated", owner=("C07", "C14"))
+
+
+@register
+class AuxMutateRef(AuxBase):
+    """{"op":"aux_mutate_ref","c":container,"name":N,"seed":k}: mutate, in
+    place, the value object an EARLIER read handed out - without touching
+    .data again (a caller holding on to the reference across a save)."""
+
+    name = "aux_mutate_ref"
+
+    def ready(self, w, op):
+        tbl = self._tbl(w, op)
+        if tbl is None or tbl["cv"] is None or (op["c"], op["name"]) not in w.aux_refs:
+            return False
+        t = R.parse_type(tbl["type"])
+        if tbl["state"] not in ("read", "mutated") or R.has_unknown(t):
+            return False
+        return t[0] in ("sequence", "set", "mapping")
+
+    def run(self, w, op):
+        tbl = self._tbl(w, op)
+        t = R.parse_type(tbl["type"])
+        v = w.aux_refs[(op["c"], op["name"])]
+
+        def fn():
+            auxm.mutate_in_place(w, op.get("seed", 0), t, v)
+            return v
+
+        out = capture(fn)
+        out.value = "mutated" if out.kind == "ok" else None
+        return out
+
+    def model(self, w, op, out):
+        tbl = self._tbl(w, op)
+        if out.kind != "ok":
+            return Exp("ok", value="mutated", owner=())
+        t = R.parse_type(tbl["type"])
+        try:
+            tbl["cv"] = auxm.from_impl(w, t, out.raw)
+        except auxm.Uncanonical as e:
+            w.violate((), "aux:mutate_shape", str(e))
+        tbl["state"] = "mutated"
+        w.counters["probe:aux_mutated_through_kept_reference"] += 1
+        return Exp("ok", value="mutated", owner=())
 
 
 @register
@@ -334,15 +385,33 @@ class AuxAssign(AuxBase):
         tbl = self._tbl(w, op)
         tbl["cv"] = op["cv"]
         tbl["state"] = "assigned"
+        w.aux_refs.pop((op["c"], op["name"]), None)
         tbl.pop("decoded_lazily", None)
         return Exp("ok", value=None, owner=())
 
 
 def retype_value(cv, t0, t1):
     """Value under the new type name, or None if the retyping is not one of
-    the compatible ones the workload uses."""
+    the compatible ones the workload uses (integer leaves widened at any
+    depth; sequence<X> -> set<X> at the top)."""
     if t0 == t1:
         return cv
+    if t0[0] == t1[0] and t0[0] in ("sequence", "set", "mapping", "tuple") and len(t0[1]) == len(t1[1]):
+        n = t0[0]
+        try:
+            if n == "sequence":
+                out = [retype_value(x, t0[1][0], t1[1][0]) for x in cv]
+                return None if any(x is None for x in out) else out
+            if n == "set":
+                out = [retype_value(x, t0[1][0], t1[1][0]) for x in cv["set"]]
+                return None if any(x is None for x in out) else {"set": out}
+            if n == "mapping":
+                out = [[retype_value(k, t0[1][0], t1[1][0]), retype_value(v, t0[1][1], t1[1][1])] for k, v in cv["map"]]
+                return None if any(k is None or v is None for k, v in out) else {"map": out}
+            out = [retype_value(x, a, b) for x, a, b in zip(cv["tuple"], t0[1], t1[1])]
+            return None if any(x is None for x in out) else {"tuple": out}
+        except (TypeError, KeyError):
+            return None
     if t0[0] in R.INTS and t1[0] in R.INTS:
         s0, g0 = R.INTS[t0[0]]
         s1, g1 = R.INTS[t1[0]]
@@ -368,7 +437,8 @@ class AuxRetype(AuxBase):
         if tbl is None or tbl["cv"] is None:
             return False
         t0, t1 = R.parse_type(tbl["type"]), R.parse_type(op["type"])
-        if t0[0] == "sequence" and t1[0] == "set" and auxm.unhashable_position(t1):
+        if t0[0] == "sequence" and t1[0] == "set" and (auxm.unhashable_position(t1) or _f32_nan(t1) or _has_double(t1)):
+            # floats as set elements: 0.0 == -0.0 and NaN != NaN make "the same value" ill-defined
             return False
         return retype_value(tbl["cv"], t0, t1) is not None
 
@@ -413,11 +483,29 @@ class AuxDel(AuxBase):
 
     def model(self, w, op, out):
         w.m.nodes[op["c"]].a["aux"].pop(op["name"], None)
+        w.aux_refs.pop((op["c"], op["name"]), None)
         return Exp("ok", value=None, owner=())
 
 
 # ---------------------------------------------------------------------------
 # generators
+
+
+def widen_some_leaf(r, t):
+    """Type tree with one integer leaf widened (same signedness), or None."""
+    n, subs = t
+    if n in R.INTS and n != "Addr":
+        size, signed = R.INTS[n]
+        wider = [k for k, (s_, g) in R.INTS.items() if g == signed and s_ > size and k != "Addr"]
+        return (r.choice(wider), []) if wider else None
+    if n in ("sequence", "set", "mapping", "tuple") and subs:
+        idx = list(range(len(subs)))
+        r.shuffle(idx)
+        for i in idx:
+            x = widen_some_leaf(r, subs[i])
+            if x is not None:
+                return (n, subs[:i] + [x] + subs[i + 1 :])
+    return None
 
 
 def gen_aux(w, r, allow_unknown=False):
@@ -431,7 +519,7 @@ def gen_aux(w, r, allow_unknown=False):
     if not tables or x < 0.3:
         if len(tables) >= w.cfg.get("max_aux", 6):
             return None
-        t = auxm.gen_type(r, depth=w.cfg.get("aux_depth", 3), allow_variant=w.cfg.get("aux_variant", True))
+        t = auxm.gen_type(r, depth=w.cfg.get("aux_depth", 3), allow_variant=w.cfg.get("aux_variant", True), allow_unordered=w.cfg.get("aux_unordered", True))
         name = "t%d" % r.randrange(0, 8)
         return {"op": "aux_new", "c": c, "name": name, "type": R.type_str(t), "cv": auxm.gen_value(w, r, t), "node_objects": r.random() < 0.7}
     name = sorted(tables)[r.randrange(len(tables))]
@@ -439,7 +527,7 @@ def gen_aux(w, r, allow_unknown=False):
     if x < 0.55:
         return {"op": "aux_read", "c": c, "name": name}
     if x < 0.7:
-        return {"op": "aux_mutate", "c": c, "name": name, "seed": r.randrange(4)}
+        return {"op": "aux_mutate" if r.random() < 0.6 else "aux_mutate_ref", "c": c, "name": name, "seed": r.randrange(4)}
     if x < 0.85:
         if tbl["cv"] is None:
             return None
@@ -449,10 +537,9 @@ def gen_aux(w, r, allow_unknown=False):
         return {"op": "aux_assign", "c": c, "name": name, "cv": auxm.gen_value(w, r, t)}
     if x < 0.95:
         t = R.parse_type(tbl["type"])
-        if t[0] in R.INTS:
-            size, signed = R.INTS[t[0]]
-            wider = [n for n, (s, g) in R.INTS.items() if g == signed and s >= size and n != "Addr"]
-            return {"op": "aux_retype", "c": c, "name": name, "type": r.choice(wider)}
+        wt = widen_some_leaf(r, t)
+        if wt is not None and r.random() < 0.7:
+            return {"op": "aux_retype", "c": c, "name": name, "type": R.type_str(wt)}
         if t[0] == "sequence":
             return {"op": "aux_retype", "c": c, "name": name, "type": R.type_str(("set", t[1]))}
         if tbl["type0"] and r.random() < 0.5:
